@@ -84,6 +84,18 @@ class Engine(Interp, ExecMixin, EvalMixin, CallMixin, BuiltinMixin):
             self.assumed_used.add(key)
         caller = st.frames[0].qualname if st.frames else "?"
         env = self.bind_contract_args(st, c, args, kwargs)
+        if c.fresh:
+            cfr = st.frame
+            cc = getattr(cfr, "contract", None)
+            short0 = key.split(":")[-1]
+            gargs = ((cc.options.get("ghost_args") or {}).get(short0) if cc is not None else None) or {}
+            for nm, ts in c.fresh:
+                if nm in gargs and st.spec == 0:
+                    extra = {"it": zint(st.ghost["__it"][-1])} if st.ghost.get("__it") else None
+                    val = self.eval_lambda_spec(st, gargs[nm], [], cfr, extra)
+                    env[nm] = self.coerce_param(st, val, ts, nm)
+                else:
+                    env[nm] = self.fresh_of(st, parse_T(ts), "ghost_" + nm)
         fr = self.contract_frame(c, env, key)
         short = key.split(":")[-1]
         spec_mode = st.spec > 0
@@ -94,7 +106,7 @@ class Engine(Interp, ExecMixin, EvalMixin, CallMixin, BuiltinMixin):
                 for i, r in enumerate(c.requires):
                     g = self.truthy(st, self.ev_spec(st, r))
                     self.oblige(st, f"{self.current_target}#pre-of-call[{short}.{i}]", g, "pre")
-                if c.decreases is not None and key in getattr(self, "recursion_group", ()):
+                if c.decreases is not None and (key in getattr(self, "recursion_group", ()) or key == self.current_target):
                     self.check_decreases(st, c, short)
             st.old_heap = st.snapshot_heap()
             st.old_env = dict(env)
@@ -108,6 +120,9 @@ class Engine(Interp, ExecMixin, EvalMixin, CallMixin, BuiltinMixin):
                 nd.append(b)
                 alts.append((b, ("raise", cls)))
             normal = z3.And([z3.Not(cc) for _, cc in conds] + [z3.Not(b) for b in nd]) if (conds or nd) else z3.BoolVal(True)
+            nri = [self.truthy(st, self.ev_spec(st, e)) for e in (c.options.get("no_raise_if") or [])]
+            if nri:
+                alts = [(z3.And(a, z3.Not(z3.Or(nri))), p) for a, p in alts]
             alts = [(normal, ("normal", None))] + [(cc, ("raise", cls)) for cls, cc in conds] + alts
             if spec_mode:
                 outcome = ("normal", None)
@@ -243,6 +258,9 @@ class Engine(Interp, ExecMixin, EvalMixin, CallMixin, BuiltinMixin):
         else:
             self.current_rank = None
         raise_conds = [(cls, self.truthy(st, self.ev_spec(st, cond))) for cls, cond in c.raises]
+        no_raise = [self.truthy(st, self.ev_spec(st, e)) for e in (c.options.get("no_raise_if") or [])]
+        self.ghost_env = {nm: env[nm] for nm, _ in c.fresh}
+        self.body_contract_obj = c
         args = [env[p] for p, _ in c.params]
         raised = None
         res = NONE
@@ -317,6 +335,8 @@ class Engine(Interp, ExecMixin, EvalMixin, CallMixin, BuiltinMixin):
                 goal = z3.Or(match) if match else z3.BoolVal(False)
                 self.oblige(st, f"{short}#raises[{raised.cls}]", goal, "raises", assume_after=False,
                             meta={"exception": raised.cls})
+            for i, g in enumerate(no_raise):
+                self.oblige(st, f"{short}#no-raise-if[{i}]", z3.Not(g), "raises", assume_after=False, meta={"exception": raised.cls})
             for i, e in enumerate(c.ensures_raise):
                 self.oblige(st, f"{short}#post-raise[{i}]", self.truthy(st, self.ev_spec(st, e)), "post", assume_after=False)
         # ------- frame
@@ -396,6 +416,10 @@ def load_all(contract_dir=None, spec_dir=None):
                 specs[n.name] = SpecFn(n.name, n, modname, "pure" in decs)
     eng = Engine(contracts, classes, specs)
     eng.inline_ok = inline_ok
+    eng.auto_lemma_index = {}
+    for c in contracts.values():
+        if c.kind in ("lemma", "assumed") and c.options.get("auto_for"):
+            eng.auto_lemma_index.setdefault(c.options["auto_for"], []).append(c)
     return eng
 
 
@@ -527,6 +551,19 @@ def discharge(eng: Engine, rep: dict, timeout_ms=10000, second_opinion=False) ->
                     queries += 1
                     tsum += info.get("time", 0)
                     backend.add(info.get("backend", "?"))
+                    if v != "unsat":
+                        eg = prep.ext_goal(pc_["goal"])
+                        if eg is not None:
+                            ok = True
+                            for p2 in prep.prepare(pc_["hyps_full"], eg, extra_terms=o.meta.get("_terms") or ()):
+                                v2, info2 = solve_piece(p2["hyps_qf"], p2["hyps_full"], p2["goal"], timeout_ms, cs)
+                                queries += 1
+                                tsum += info2.get("time", 0)
+                                if v2 != "unsat":
+                                    ok = False
+                                    break
+                            if ok:
+                                v = "unsat"
                     if v == "unsat":
                         continue
                     if v == "sat":
